@@ -43,7 +43,16 @@ class Function(Subroutine):
         if self.keyword_info is None:
             self.keyword_info = {}
 
+    def restore_interface(self):
+        if self.own_interface is None:
+            return
+        super().restore_interface()
+        self.result_name, self.result_type = self.own_result
+        self.result_obj = None
+
     def copy_interface(self, copy_source: Function):
+        if self.own_interface is None:
+            self.own_result = (self.result_name, self.result_type)
         # Call the parent class method
         child_names = super().copy_interface(copy_source)
         # Return specific options
